@@ -211,7 +211,7 @@ PROPS = {
              "div/mod at instruction indexes 65534..131071. A case is compared only when the taint run of the model says it is inside the claim (no undefined register/stack byte, r1-r5 after a helper, "
              "or raw address reaches the result, a branch, a divisor or stored packet bytes) - the filtered fraction is in input_distribution. Oracle: same r0, packet and metadata bytes, helper log as the real "
              "interpreter. Non-trivial: distinct program the interpreter ran to a value.",
-        trusted=EXEC_TRUST + ["x86-64 semantics of the ~30 instruction forms the JIT emits, validated by execution on the host CPU (the theorems are about the register-transfer model EngineSem)"],
+        trusted=EXEC_TRUST + ["the processor decodes and executes the ~30 instruction forms the JIT emits as Model/X86.lean says (the machine model is run on the emitted bytes of every case and compared with the processor); System V calling convention"],
     ),
     "C04": dict(
         suites=["exec-engines"], oracle=engine_oracle(["clif"]), level="proof", model_is_spec=True,
